@@ -107,6 +107,7 @@ type Config struct {
 	MapPolicy   int
 	Trace       bool
 	TraceCap    int
+	MaxYields   int64 // cap on function-entry yields of one run (0: 50 million); exceeding it is a hang
 }
 
 // Event is one entry of the event log (kept only when Config.Trace).
@@ -141,6 +142,7 @@ type Result struct {
 	Tasks     int
 	MapRanges int64
 	MapPerms  int64 // ranges over maps with >=2 keys that were actually permuted
+	Yields    int64
 }
 
 // Run is the state of the active simulated run.
@@ -172,6 +174,8 @@ type Run struct {
 	mapPerms  int64
 	ioIndex   int64
 	progress  int64 // bumped by every scheduling event that is not a channel re-try
+	yields    int64
+	maxYields int64
 }
 
 var (
@@ -251,7 +255,10 @@ func Exec(cfg Config, main func()) Result {
 		cfg.MaxSteps = 4_000_000
 	}
 	epochCtr++
-	r := &Run{cfg: cfg, tape: cfg.Tape, epoch: epochCtr, finished: make(chan struct{})}
+	r := &Run{cfg: cfg, tape: cfg.Tape, epoch: epochCtr, finished: make(chan struct{}), maxYields: cfg.MaxYields}
+	if r.maxYields == 0 {
+		r.maxYields = 50_000_000
+	}
 	if cfg.Trace {
 		n := cfg.TraceCap
 		if n == 0 {
@@ -285,7 +292,7 @@ func Exec(cfg Config, main func()) Result {
 	res := Result{
 		Verdict: r.verdict, Steps: r.steps, Switches: r.switches, SwitchSig: r.swSig,
 		EventHash: r.evHash, Events: r.nev, SimTimeNs: r.now, Unstamped: r.unstamped,
-		Tasks: int(r.ntasks), Panics: r.panics, MapRanges: r.mapRanges, MapPerms: r.mapPerms,
+		Tasks: int(r.ntasks), Panics: r.panics, MapRanges: r.mapRanges, MapPerms: r.mapPerms, Yields: r.yields,
 	}
 	if cfg.Trace {
 		res.Trace = r.trace[:r.ntrace]
@@ -751,7 +758,19 @@ func joinModel(h *Handle) {
 //go:norace
 func Yield(site uint32) {
 	r := run
-	if r == nil || r.preemptIn <= 0 || r.aborting {
+	if r == nil {
+		return
+	}
+	// Every function entry of the instrumented packages counts towards the
+	// hang cap, so an unbounded loop that calls anything is detected
+	// deterministically (same tape, same verdict) and not by a wall clock.
+	r.yields++
+	if r.yields > r.maxYields && !r.aborting {
+		r.verdict = StepLimit
+		r.aborting = true
+		panic(abortSentinel)
+	}
+	if r.preemptIn <= 0 || r.aborting {
 		return
 	}
 	r.preemptIn--
